@@ -143,6 +143,8 @@ func threadRun(L *LState) {
 			} else {
 				lv = LString(fmt.Sprint(rcv))
 			}
+			// the coroutine is dead: its frames will never run again
+			L.closeUpvalues(0)
 			if parent := L.Parent; parent != nil {
 				if L.wrapped {
 					L.Push(lv)
